@@ -769,16 +769,31 @@ func newIndex(vals []reflect.Value, c ReflectListComparator) *index {
 }
 
 func reflectCompare(a, b reflect.Value) bool {
-	if a.CanInt() {
+	// a list the node created itself for a key that is not a string or an int is a
+	// map[interface{}]..., its keys are looked at through the interface
+	for a.Kind() == reflect.Interface && !a.IsNil() {
+		a = a.Elem()
+	}
+	for b.Kind() == reflect.Interface && !b.IsNil() {
+		b = b.Elem()
+	}
+	switch {
+	case a.CanInt() && b.CanInt():
 		return a.Int() < b.Int()
-	}
-	if a.CanFloat() {
+	case a.CanUint() && b.CanUint():
+		return a.Uint() < b.Uint()
+	case a.CanFloat() && b.CanFloat():
 		return a.Float() < b.Float()
-	}
-	if a.Kind() == reflect.String {
+	case a.Kind() == reflect.String && b.Kind() == reflect.String:
 		return a.String() < b.String()
+	case a.Kind() == reflect.Bool && b.Kind() == reflect.Bool:
+		return !a.Bool() && b.Bool()
 	}
-	panic(fmt.Sprintf("cannot compare %s. you must set comparator or implement your own list handler", a.Type()))
+	if !a.IsValid() || !b.IsValid() || !a.CanInterface() || !b.CanInterface() {
+		panic(fmt.Sprintf("cannot compare %v. you must set comparator or implement your own list handler", a))
+	}
+	// any other kind of key (or keys of different kinds) is kept in the order of its text
+	return fmt.Sprint(a.Interface()) < fmt.Sprint(b.Interface())
 }
 
 func (ndx *index) Len() int {
